@@ -102,8 +102,8 @@ def py_rect_maxvol(
         C = np.asfortranarray(np.hstack([C, l * v.reshape(-1, 1)]))
         row_norm_sqr -= (l * v[:top_k_index] * v[:top_k_index].conj()).real
         row_norm_sqr *= chosen
-        # find maximum value in row_norm_sqr
-        i = row_norm_sqr.argmax()
+        # find maximum value in row_norm_sqr (among rows not chosen yet)
+        i = np.where(chosen > 0, row_norm_sqr, -np.inf).argmax()
         K += 1
     # parameter identity_submatrix is True, set submatrix,
     # corresponding to maxvol rows, equal to identity matrix
